@@ -1636,6 +1636,15 @@ def malformed_calls(rng, h):
         ('bad-swap-nonadjacent', 'swap', ['l:0', 'l:2']),
         ('bad-swap-same', 'swap', ['l:0', 'l:0']),
         ('bad-order', 'reorder', [f'{some}=0']) if n > 1 else ('undeclared-var', 'var', ['nosuch']),
+        # an order of the right length that misses a declared name: `KeyError` in the middle of the
+        # bubble sort, possibly after some swaps (the order may have changed, nothing else)
+        ('bad-order-missing-name', 'reorder',
+         [','.join(f'{nm}={i}' for i, nm in enumerate(
+             rng.sample([x if x != some else 'nosuch' for x in names], n)))]) if n > 1 else
+        ('undeclared-var', 'var', ['nosuch']),
+        # the public `swap` collects garbage, then refuses a name that is not declared
+        ('bad-swap-unknown-name', 'swap', ['n:nosuch', f'n:{some}']),
+        ('bad-swap-unknown-name-2', 'swap', [f'n:{some}', 'n:nosuch']),
         ('undeclare-unknown', 'undeclare', ['nosuch']),
         ('quantify-undeclared', 'quantify', [u, 'n:nosuch', 0]),
         ('cofactor-undeclared', 'let_b', [u, 'n:nosuch=1']),
@@ -1660,6 +1669,9 @@ def malformed_calls(rng, h):
     extra = []
     if used:
         extra.append(('undeclare-used', 'undeclare', [rng.choice(used)]))
+    if n < 2:
+        # sifting fewer than two variables raises (after the collection `reorder` starts with)
+        extra.append(('sift-few-vars', 'reorder', []))
     # a request that is partly valid: some removable variables next to one that is in use or
     # unknown (whatever order a set of the names is visited in, nothing may be removed)
     if unused:
@@ -1701,7 +1713,7 @@ def check_C17(ctx):
             if rng.random() < 0.5:
                 h.s.op(0, 'set_last_len', rng.randint(2, 8))
         w = dict(var=4, apply=8, ite=2, quantify=1, cofactor=1, rename=1, compose=1, hold=5,
-                 release=1, gc=1, swap=(0 if dyn else 1))
+                 release=1, gc=1, swap=1, sift=0.5, order=0.5)
         inject_at = sorted(rng.sample(range(60), rng.randint(2, 6)))
         for i in range(rng.randint(15, 60)):
             if i in inject_at:
@@ -1726,7 +1738,7 @@ def check_C17(ctx):
                     h.prune()
                     continue
                 bad = order_views_ok(b) + check_invariants(b, h.ledger(), probe=not dyn)
-                if dict(b.vars) != order:
+                if dict(b.vars) != order and label != 'bad-order-missing-name':
                     bad.append('variable order changed by a failed call')
                 tt = TT(b, univ)
                 for u, t in tts.items():
@@ -1759,6 +1771,10 @@ def check_C17(ctx):
                     if r is None or TT(b, univ).of(r) != want:
                         ctx.violation(f'operation after a failed call ({label}) is wrong', dict(
                             lines=list(h.s.lines), tags=dict(call='after-failed:' + label)))
+            elif dyn and rng.random() < 0.04:
+                # the switch is turned off and on again in the middle of the history
+                h.s.op(0, 'configure', rng.randint(0, 1))
+                ctx.count('op:configure')
             else:
                 h.step(w)
                 h.prune()
